@@ -18,6 +18,9 @@ import (
 // Hooks lets another property (C11) reuse the runner.
 type Hooks struct {
 	ExtraOpts []util.Option
+	// Drain: before reporting a violation let the session read everything the device has generated
+	// (C11 wants the logs of a misbehaving session to be complete).
+	Drain bool
 }
 
 // Info is what a run observed (for C11's monitors).
@@ -101,6 +104,11 @@ func RunDialogue(d Dialogue, h *Hooks) (mon.Result, *Info) {
 		return mon.Result{Verdict: mon.Violated, Key: "c10/constructor-failed", Detail: err.Error()}, info
 	}
 	bad := func(key, f string, x ...interface{}) (mon.Result, *Info) {
+		if h != nil && h.Drain {
+			conn.Release()
+			conn.WaitDelivered(len(conn.Stream()), time.Second)
+			time.Sleep(3 * time.Millisecond)
+		}
 		return mon.Result{Verdict: mon.Violated, Key: key, Detail: fmt.Sprintf("expected outcome %q (plan: %s)\n", a.Class, planString(&d)) + fmt.Sprintf(f, x...),
 			Events: tail(conn.Log(), 80), NonTrivial: true}, info
 	}
@@ -118,10 +126,15 @@ func RunDialogue(d Dialogue, h *Hooks) (mon.Result, *Info) {
 	got := classOf(err)
 	info.Class, info.Err = got, err
 	var devLog []Rec
-	var pending, devState string
+	var pending, devState, shellPending string
+	var shellLines []devsim.LineRec
 	conn.Do(func() {
 		devLog = append([]Rec(nil), dev.Log...)
 		pending, devState = dev.Pending(), dev.StateNow()
+		if dev.CLI != nil {
+			shellLines = append(shellLines, dev.CLI.Lines...)
+			shellPending = dev.CLI.InputLine()
+		}
 	})
 	info.DeviceLog = devLog
 	loaded := mon.LoadedSince(t0)
@@ -153,6 +166,23 @@ func RunDialogue(d Dialogue, h *Hooks) (mon.Result, *Info) {
 		if count[which] > 2 {
 			return bad("c10/credential-sent-more-than-twice:"+which, "the %s was sent %d times (device log: %v)", which, count[which], devLog)
 		}
+	}
+	// nothing may have been typed at the shell while Open was running
+	for _, l := range shellLines {
+		switch l.Line {
+		case "":
+		case d.User:
+			return bad("c10/credential-in-wrong-state:user@shell", "the user name was typed at the shell prompt during Open (login log: %v)", devLog)
+		case d.Password:
+			return bad("c10/credential-in-wrong-state:password@shell", "the password was typed at the shell prompt during Open (login log: %v)", devLog)
+		case d.Passphrase:
+			return bad("c10/credential-in-wrong-state:passphrase@shell", "the passphrase was typed at the shell prompt during Open (login log: %v)", devLog)
+		default:
+			return bad("c10/unexpected-input:shell", "the shell received %q during Open", l.Line)
+		}
+	}
+	if shellPending != "" {
+		return bad("c10/unexpected-input:shell", "the shell holds the unterminated input %q after Open", shellPending)
 	}
 	if pending != "" && devState != StShell && devState != StNetconf {
 		return bad("c10/unexpected-input:partial", "device holds an unterminated input line %q in state %s", pending, devState)
@@ -232,6 +262,14 @@ func RunDialogue(d Dialogue, h *Hooks) (mon.Result, *Info) {
 	tags := []string{"auth=" + d.Auth, "drv=" + d.Driver, "outcome=" + got, "seg=" + d.Seg.Mode, fmt.Sprintf("readsize=%d", d.ReadSize),
 		fmt.Sprintf("returnchar=%q", d.ReturnChar), fmt.Sprintf("prompts=%d", prompts), fmt.Sprintf("stall=%v", d.StallAt >= 0),
 		"shape=" + shapeString(&d, a)}
+	if HasNotice(&d) {
+		tags = append(tags, "family=notice+prompt-in-one-read")
+		obs["notice_dialogues"] = 1
+	}
+	if n := LongestBanner(&d); n > d.PSD {
+		tags = append(tags, fmt.Sprintf("family=banner>searchdepth(%d)", d.PSD))
+		obs["banner_longer_than_search_depth"] = 1
+	}
 	nontrivial := (prompts > 0 || a.PlanClass == OutConn || d.StallAt >= 0) && reads >= 2
 	res := mon.Result{Verdict: mon.Held, NonTrivial: nontrivial, Obs: obs, Tags: tags,
 		Sample: map[string]interface{}{"plan": planString(&d), "outcome": got, "device_log": devLog, "transport": devsim.Summary(conn.Log()), "elapsed_ms": elapsed.Milliseconds()}}
@@ -376,6 +414,31 @@ func firstOps(d *Dialogue, s *Session, conn *devsim.Conn, dev *Dev, a *Analysis,
 		}
 		return sendCommand("second")
 	}
+}
+
+// HasNotice reports whether the dialogue has a notice+prompt step delivered uncut.
+func HasNotice(d *Dialogue) bool {
+	for _, s := range d.Steps {
+		if s.Uncut {
+			return true
+		}
+	}
+	return false
+}
+
+// LongestBanner returns the size of the largest banner step.
+func LongestBanner(d *Dialogue) int {
+	best := 0
+	for _, s := range d.Steps {
+		n := 0
+		for _, l := range s.Lines {
+			n += len(l.S) + len(d.NL)
+		}
+		if n > best {
+			best = n
+		}
+	}
+	return best
 }
 
 func min(a, b int) int {
